@@ -124,7 +124,32 @@ def rx_src(r, top=True):
     raise ValueError(r)
 
 
+# Spelling option for closures: `lambda v_, x=x: ...` (every name of the grammar that the closure mentions is also
+# bound as a default argument - a common Python idiom; same meaning, since defaults are evaluated where the lambda is).
+LAM_DEFAULTS = False
+
+
+def _py_vars(P, acc):
+    if isinstance(P, (list, tuple)):
+        if len(P) == 2 and P[0] == 'var' and isinstance(P[1], str):
+            acc.append(P[1])
+        else:
+            for x in P:
+                _py_vars(x, acc)
+    return acc
+
+
 def py_src(P):
+    if LAM_DEFAULTS and P[0] == 'lam':
+        names = list(dict.fromkeys(_py_vars(P[2], [])))
+        plain = _py_src(P)
+        if names and plain.startswith('lambda v_:'):
+            return 'lambda v_, %s:%s' % (', '.join('%s=%s' % (n, n) for n in names), plain[len('lambda v_:'):])
+        return plain
+    return _py_src(P)
+
+
+def _py_src(P):
     k = P[0]
     if k == 'var':
         return P[1]
